@@ -295,6 +295,7 @@ end Os
 inductive Target where
   | live (p : Path)
   | orphan (i : Nat)
+  | gone                 -- a directory handle whose directory has been removed
   deriving DecidableEq, Repr
 
 /-- An open file: `memFile` / `*os.File`. Directory handles carry the listing taken when
@@ -306,6 +307,7 @@ structure Handle where
   kids : List Name
   acc : Nat
   app : Bool
+  listed : Bool          -- a Readdir has been run on the handle
   deriving DecidableEq, Repr
 
 structure State where
@@ -343,11 +345,13 @@ def fileData (s : State) (h : Handle) : List Nat :=
   match h.target with
   | .live p => (match get s.tree p with | some (.file d) => d | _ => [])
   | .orphan i => s.orphans.getD i []
+  | .gone => []
 
 def setFileData (s : State) (h : Handle) (d : List Nat) : State :=
   match h.target with
   | .live p => { s with tree := setEntry s.tree p (.file d) }
   | .orphan i => { s with orphans := s.orphans.set i d }
+  | .gone => s
 
 def setPos (s : State) (i : Nat) (pos : Nat) : State :=
   { s with handles := s.handles.modify i (fun h => { h with pos := pos }) }
@@ -360,7 +364,10 @@ def orphanEntries (s : State) : Tree → State
       orphans := s.orphans ++ [d],
       handles := s.handles.map (fun h =>
         if h.target = .live q then { h with target := .orphan s.orphans.length } else h) } es
-  | (_, .dir) :: es => orphanEntries s es
+  | (q, .dir) :: es =>
+    orphanEntries { s with
+      handles := s.handles.map (fun h =>
+        if h.target = .live q then { h with target := .gone } else h) } es
 
 def effRemove (s : State) (p : Path) : State :=
   { orphanEntries s (sub s.tree p) with tree := outside p s.tree }
@@ -372,10 +379,29 @@ def effRename (s : State) (a b : Path) (t2 : Tree) : State :=
     handles := s1.handles.map (fun h =>
       match h.target with
       | .live q => if under a q then { h with target := .live (b ++ q.drop a.length) } else h
-      | .orphan _ => h) }
+      | _ => h) }
+
+/-- The listing a directory handle works through, fixed by its first Readdir. -/
+def primeHandle (s : State) (i : Nat) (ks : List Name) : State :=
+  { s with handles := s.handles.modify i (fun h => { h with kids := ks, listed := true }) }
+
+/-- What the directory behind handle `hd` contains now (`none`: it has been removed). -/
+def liveKids (s : State) (hd : Handle) : Option (List Name) :=
+  match hd.target with
+  | .live p => some (kidsOf s.tree p)
+  | _ => none
+
+/-- The Readdir batch logic shared by `memFile.Readdir` and `os.File.Readdir` once the listing
+`ks` is fixed: position `pos` in `ks`, `count` as in the Go API. -/
+def readdirBatch (s : State) (h : Nat) (pos : Nat) (ks : List Name) (count : Int) : State × Res :=
+  if pos ≥ ks.length then (s, if count > 0 then .eof else .listing [])
+  else if count > 0 then
+    let np := min (pos + count.toNat) ks.length
+    (setPos s h np, .listing ((ks.drop pos).take (np - pos)))
+  else (setPos s h ks.length, .listing (ks.drop pos))
 
 def addHandle (s : State) (t : Tree) (info : Mem.OpenInfo) (f : Mem.Flags) : State × Res :=
-  ({ s with tree := t, handles := s.handles ++ [⟨.live info.path, 0, info.isDir, info.kids, f.acc, f.append⟩] },
+  ({ s with tree := t, handles := s.handles ++ [⟨.live info.path, 0, info.isDir, info.kids, f.acc, f.append, false⟩] },
    .opened s.handles.length info.isDir)
 
 /-- `Seek` arithmetic shared by `memFile.Seek` and lseek(2) on a regular file. -/
@@ -459,13 +485,8 @@ def step (s : State) : Op → State × Res
     | none => (s, .badHandle)
     | some hd =>
       if !hd.isDir then (s, .err)
-      else if hd.pos ≥ hd.kids.length then (s, if count > 0 then .eof else .listing [])
-      else if count > 0 then
-        let np := min (hd.pos + count.toNat) hd.kids.length
-        (setPos s h np, .listing ((hd.kids.drop hd.pos).take (np - hd.pos)))
-      else
-        -- the remaining entries
-        (setPos s h hd.kids.length, .listing (hd.kids.drop hd.pos))
+      -- the listing is the snapshot taken by OpenFile, whatever happened since
+      else readdirBatch (primeHandle s h hd.kids) h hd.pos hd.kids count
   | .rename a b =>
     match okOf (Mem.rename s.tree a b) with
     | none => (s, .err)
@@ -532,13 +553,12 @@ def step (s : State) : Op → State × Res
     | none => (s, .badHandle)
     | some hd =>
       if !hd.isDir then (s, .err)
-      else if hd.pos ≥ hd.kids.length then (s, if count > 0 then .eof else .listing [])
-      else if count > 0 then
-        let np := min (hd.pos + count.toNat) hd.kids.length
-        (setPos s h np, .listing ((hd.kids.drop hd.pos).take (np - hd.pos)))
       else
-        -- the remaining entries
-        (setPos s h hd.kids.length, .listing (hd.kids.drop hd.pos))
+        -- the first Readdir reads the directory as it is now (getdents); later calls continue in
+        -- that buffer.  A removed directory cannot be read (ENOENT).
+        match (if hd.listed then some hd.kids else liveKids s hd) with
+        | none => (s, .err)
+        | some ks => readdirBatch (primeHandle s h ks) h hd.pos ks count
   | .rename a b =>
     match okOf (Os.rename s.tree a b) with
     | none => (s, .err)
